@@ -557,3 +557,34 @@ func VerifC20Cycles() {
 		vassert(err == nil, "any-predecessor mode accepts the graph (cycles allowed): "+desc)
 	}
 }
+
+type c20In struct{ A int }
+type c20Out struct{ X int }
+
+// The deferred inputs of a workflow are applied in map order at Compile: the verdict on one and the same workflow
+// does not depend on that order. A pass-through node between START and a field-mapped END, and a pass-through in
+// front of a typed node, compile and run for every order.
+func VerifC20WorkflowOrder() {
+	ctx := context.Background()
+	vcfg("fifo", 1)
+	vcfgMapOrderIn("compose.Workflow[")
+	x := vsymInt("x")
+	shape := vchoose("shape", 2)
+	wf := NewWorkflow[c20In, c20Out]()
+	switch shape {
+	case 0: // START -> p(pass-through) ; END.X <- p.A
+		wf.AddPassthroughNode("p").AddInput(START)
+		wf.End().AddInput("p", MapFields("A", "X"))
+	case 1: // START -> p -> n(c20In -> int) ; END.X <- n
+		wf.AddPassthroughNode("p").AddInput(START)
+		wf.AddLambdaNode("n", InvokableLambda(func(ctx context.Context, in c20In) (int, error) { return in.A, nil })).AddInput("p")
+		wf.End().AddInput("n", ToField("X"))
+	}
+	r, err := wf.Compile(ctx)
+	if err != nil {
+		vlog("compile error: " + err.Error())
+	}
+	vassert(err == nil, "the well-formed workflow compiles whatever order the deferred inputs are applied in")
+	out, rerr := r.Invoke(ctx, c20In{A: x})
+	vassert(rerr == nil && out.X == x, "and runs")
+}
